@@ -144,6 +144,10 @@ class InitVersions(Unit):
         return None
 
     def replay(self, model, label):
+        if label.startswith('init.name'):
+            rp = replay_initial_names()
+            if rp['confirmed']:
+                return rp
         if 'initial' not in model:
             return replay_default_version()
         v = int(model.get('initial', 0))
@@ -168,11 +172,29 @@ class InitVersions(Unit):
         rp = replay_default_version()
         if rp['confirmed']:
             fails.insert(0, dict(call=rp['call'], observed=rp['observed'], witness='default-version'))
+        rp = replay_initial_names()
+        cnt += rp['n']
+        if rp['confirmed']:
+            fails.insert(0, dict(call=rp['call'], observed=rp['observed'], witness='initial-version-name'))
         return dict(name='C09.init.all-known', evaluations=cnt, failures=fails[:2], exhaustive_for_bound=True,
                     bound='every known protocol number and every known version name; default version for six allowed sets')
 
 
 # ------------------------------------------------------------------------------------------
+def replay_initial_names():
+    """initial_version given as a version NAME: the default (fallback) version must be its protocol NUMBER - it becomes
+    context.protocol_version when a status query fails, and every id / layout lookup takes a number."""
+    n = 0
+    for name, proto in list(minecraft.SUPPORTED_MINECRAFT_VERSIONS.items())[::7] + [('1.12.2', 340), ('1.8.9', 47)]:
+        n += 1
+        k, c = native_call(Connection, 'h', 1, initial_version=name)
+        if k != 'ok' or c.default_proto_version != proto or type(c.default_proto_version) is not int:
+            return dict(confirmed=True, n=n, call='Connection(initial_version=%r)' % (name,),
+                        observed='%s; default_proto_version = %r, expected the protocol number %d'
+                                 % (k, getattr(c, 'default_proto_version', None), proto))
+    return dict(confirmed=False, n=n, call='initial_version by name', observed='resolved to numbers')
+
+
 def OTHER_EXCEPTIONS():
     import socket
     return [ValueError('x'), OSError(113, 'No route to host'), ConnectionRefusedError(111, 'Connection refused'),
